@@ -298,6 +298,9 @@ func checkC16(r *Run) {
 		// request leaves (C10.r3), so a fast reply cannot be taken for an unexpected tag, which
 		// fails every pending call of the client
 		r.borrow(checkC10, map[string]string{"r3": "r9"})
+		// ... and requests do not read each other's data: a pooled read buffer is handed back
+		// only after its reply was written (C18.r4)
+		r.borrow(checkC18, map[string]string{"r4": "r9"})
 	}
 }
 
